@@ -490,6 +490,15 @@ const EXTENDED: &[(&str, &str, &str)] = &[
     ("bool", "true", "bool"),
     ("unit", "()", "unit"),
     ("(int32, string)", "(1, \"a\")", "tuple"),
+    // one-element tuples (in a type, `(T)` and `(T,)` both are tuples) and the empty tuple type
+    ("(int32)", "(1,)", "tuple1"),
+    ("(string,)", "(\"a\",)", "tuple1-comma"),
+    ("((int32, bool),)", "((1, true),)", "tuple1-nested"),
+    ("(int32, string, bool)", "(1, \"a\", true)", "tuple3"),
+    ("[(int32, bool); 1]", "[(1, true)]", "array-of-tuple"),
+    ("Vec[string]", "vec_push(vec_new(), \"a\")", "vec-string"),
+    ("Ref[bool]", "ref(true)", "ref-bool"),
+    ("() -> int32", "zero", "function0"),
     ("[int32; 2]", "[1, 2]", "array"),
     ("Vec[int32]", "vec_push(vec_new(), 1)", "vec"),
     ("Ref[int32]", "ref(1)", "ref"),
@@ -512,7 +521,7 @@ fn acceptance_probe(c: &mut Case, derive: &str, container: &str, ty: &str, val: 
         _ => format!("Probe::Two2(1, {})", val),
     };
     let src = format!(
-        "trait Shown {{\n    fn show(Self) -> string;\n}}\nimpl Shown for int32 {{\n    fn show(self: int32) -> string {{ \"i\" }}\n}}\nfn incr(x: int32) -> int32 {{ x + 1 }}\nfn dynval() -> dyn Shown {{ let k = 1; let d: dyn Shown = k; d }}\n{}fn main() -> unit {{\n    let p = {};\n    let _ = string_println(p.{}());\n    ()\n}}\n",
+        "trait Shown {{\n    fn show(Self) -> string;\n}}\nimpl Shown for int32 {{\n    fn show(self: int32) -> string {{ \"i\" }}\n}}\nfn incr(x: int32) -> int32 {{ x + 1 }}\nfn zero() -> int32 {{ 0 }}\nfn dynval() -> dyn Shown {{ let k = 1; let d: dyn Shown = k; d }}\n{}fn main() -> unit {{\n    let p = {};\n    let _ = string_println(p.{}());\n    ()\n}}\n",
         def, mk, method
     );
     runner::note_input(&src);
